@@ -31,14 +31,17 @@ inline LMap gen_lmap(Tape& t, size_t maxTiles, unsigned minLg = 0) {
 	for (int i = 0; i < 4; ++i) m.clip[i] = t.pick<int32_t>({0, -1, 31, 32, 0x7FFFFFFF, int32_t(0x80000000), 100});
 	if (t.flag()) for (int i = 0; i < 4; ++i) m.clip[i] = int32_t(t.u32());
 	unsigned ns = unsigned(t.below(9));
-	for (unsigned i = 0; i < ns; ++i) { refmap::Source src; if (t.below(3) != 0) { src.name = gen_str(t, 8); } if (t.below(4) == 0) src.name = "well0001"; src.numTiles = src.name.empty() ? 0 : t.pick<uint32_t>({0, 1, 432, 0xFFFFFFFF, 7}); m.sources.push_back(src); }
+	for (unsigned i = 0; i < ns; ++i) { refmap::Source src; if (t.below(3) != 0) { src.name = gen_str(t, 8); } if (t.below(4) == 0) src.name = "well0001";
+		if (t.below(10) == 0) src.name = t.pick<std::string>({std::string(1, '\0'), std::string(8, '\0'), std::string(3, '\0'), std::string("ab\0cdefg", 8), std::string("well\0\0\0\0", 8), std::string("\0x", 2), "\xFF\xFF", "a b", "x.bmp", " "});   /* names made of, or holding, NUL bytes and other odd content */
+		src.numTiles = src.name.empty() ? 0 : t.pick<uint32_t>({0, 1, 432, 0xFFFFFFFF, 7}); m.sources.push_back(src); }
 	unsigned nm = unsigned(t.below(41)); if (t.below(8) == 0) nm = t.pick<unsigned>({2048, 2048, 4097, 5000});   // 2048 = every mapping index; beyond 4096 = past any chunked-read threshold
 	{ uint64_t q = t.u64() | 1; bool wide = t.flag();   // all four 16-bit fields take arbitrary values in half the maps
 	  for (unsigned i = 0; i < nm; ++i) { q ^= q << 13; q ^= q >> 7; q ^= q << 17; if (wide) m.mappings.push_back({uint16_t(q), uint16_t(q >> 16), uint16_t(q >> 32), uint16_t(q >> 48)}); else m.mappings.push_back({uint16_t(i * 7 + (q & 255)), uint16_t(i * 13 + 1), uint16_t(i % 5), uint16_t(i % 3)}); } }
 	unsigned nt = unsigned(t.below(5));
 	for (unsigned i = 0; i < nt; ++i) { std::array<uint8_t, 264> a; uint8_t b = t.u8(); for (size_t k = 0; k < 264; ++k) a[k] = uint8_t(k * 5 + b + i); m.terrains.push_back(a); }
 	unsigned ng = unsigned(t.below(7)); if (t.below(20) == 0) ng = 300;
-	for (unsigned i = 0; i < ng; ++i) { refmap::Group g; g.w = uint32_t(t.below(6)); g.h = uint32_t(t.below(6)); if (t.below(5) == 0) g.w = 0; else if (t.below(12) == 0) { g.w = uint32_t(t.pick<uint32_t>({1, 16, 40, 255, 256, 257})); g.h = uint32_t(1 + t.below(3)); } g.indices.resize(size_t(g.w) * g.h); for (auto& x : g.indices) x = t.u16(); g.name = gen_str(t, 20); if (t.below(16) == 0) g.name = std::string(t.pick<size_t>({255, 256, 300, 70000}), char('a' + t.below(26))); m.groups.push_back(g); }
+	unsigned longNames = 0;   // at most two very long names per map: one map stays below ~150 KB
+	for (unsigned i = 0; i < ng; ++i) { refmap::Group g; g.w = uint32_t(t.below(6)); g.h = uint32_t(t.below(6)); if (t.below(5) == 0) g.w = 0; else if (t.below(12) == 0) { g.w = uint32_t(t.pick<uint32_t>({1, 16, 40, 255, 256, 257})); g.h = uint32_t(1 + t.below(3)); } g.indices.resize(size_t(g.w) * g.h); for (auto& x : g.indices) x = t.u16(); g.name = gen_str(t, 20); if (t.below(16) == 0 && longNames < 2) { ++longNames; g.name = std::string(t.pick<size_t>({255, 256, 300, 70000}), char('a' + t.below(26))); } m.groups.push_back(g); }
 	m.unknownWord = t.below(3) == 0 ? t.u32() : (ng ? ng - 1 : 0);
 	if (t.below(4) == 0) m.trailing = t.bytes(t.below(20));
 	return m;
